@@ -64,7 +64,7 @@ type Sched struct {
 	grants   []string
 	first    byte // kind of the first fault granted
 	stalled  bool
-	over     bool // Index returned
+	note     string // what went wrong, if the schedule could not be carried through
 }
 
 var (
@@ -95,6 +95,10 @@ func (s *Sched) point(site, key string) {
 	switch site {
 	case "layerscanner.launch":
 		s.mu.Lock()
+		if s.threads[key] != nil && s.note == "" {
+			// one closure per (layer, scanner) pair is what Scan's de-duplication promises
+			s.note = "the pair " + key + " was handed to g.Go twice in one Scan"
+		}
 		th := &sthread{idx: len(s.order), key: key, state: thLaunched, gate: make(chan byte, 1)}
 		s.threads[key] = th
 		s.order = append(s.order, th)
@@ -184,6 +188,11 @@ func (s *Sched) run(over <-chan struct{}) {
 		default:
 		}
 		s.mu.Lock()
+		if s.note != "" {
+			s.mu.Unlock()
+			s.stall()
+			return
+		}
 		if !s.quiescent() {
 			s.mu.Unlock()
 			if time.Now().After(deadline) {
@@ -290,6 +299,10 @@ func (w *World) IndexSched(layers []int, rnd *hx.Rand, faultRate int) (Result, s
 	res.SchedFirst = s.first
 	if s.stalled {
 		res.Hang = true
+		res.Note = s.note
+		if res.Note == "" {
+			res.Note = "the scanner goroutines could not be scheduled (a participant did not reach its next hook point)"
+		}
 	}
 	return res, s.schedule()
 }
